@@ -19,6 +19,10 @@ def run(rep, args):
     except ImportError:
         pass
     pr = rep.classify(rebaseline=args.rebaseline)
+    from props import wf_scope
+    if not wf_scope.check_wf(rep, False, 60 if rep.tier == 'quick' else 600):
+        pr['demoted'].append(dict(key='(all proofs)', reason='the typed-field schema assumed by the proofs does not hold on the parse trees of the bounded scope',
+                                  was_proved=True, changed=True))
     for name, ok, detail in grammar.checks():
         if name == 'terminals spanning two tokens':
             rep.structural.append((name, True, detail))
